@@ -196,6 +196,26 @@ theorem runStream_sim (h : Sim o₁ o₂ R) (cfg : Cfg) (host t0host : Bytes) (s
   rw [d3, d4, g2]
   exact ⟨rfl, rfl⟩
 
+/-- the same for a stream the worker gives up on -/
+theorem runAbandoned_sim (h : Sim o₁ o₂ R) (cfg : Cfg) (host t0host : Bytes) (strm : Nat) (readRc : Bool)
+    (a0 : β₁) (b0 : β₂) (h0 : R a0 b0) (script : List Bytes) :
+    (runAbandoned o₁ cfg host t0host strm readRc a0 script).ems =
+      (runAbandoned o₂ cfg host t0host strm readRc b0 script).ems := by
+  obtain ⟨f1, f2⟩ := feedFold_sim h cfg host strm readRc script
+    { buf := a0, pipe := [], weof := false, closed := false }
+    { buf := b0, pipe := [], weof := false, closed := false } 0 [] ⟨h0, rfl, rfl, rfl⟩
+  simp only [runAbandoned]
+  generalize List.foldl (feedStep o₁ cfg host strm readRc)
+    (({ buf := a0, pipe := [], weof := false, closed := false } : Stream β₁), 0, []) script = st₁ at f1 f2 ⊢
+  generalize List.foldl (feedStep o₂ cfg host strm readRc)
+    (({ buf := b0, pipe := [], weof := false, closed := false } : Stream β₂), 0, []) script = st₂ at f1 f2 ⊢
+  obtain ⟨s₁, rc₁, acc₁⟩ := st₁
+  obtain ⟨s₂, rc₂, acc₂⟩ := st₂
+  simp only [Prod.mk.injEq] at f2
+  obtain ⟨rfl, rfl⟩ := f2
+  obtain ⟨_, g2⟩ := flushOutput_sim h cfg host t0host strm s₁.buf s₂.buf rc₁ f1.1
+  simp only [g2]
+
 /-- the obligations are satisfiable (trivially, by the identity on one implementation) -/
 example : Sim fifoOps fifoOps (· = ·) where
   wfd a b av eof h := by subst h; exact ⟨rfl, rfl⟩
